@@ -107,6 +107,13 @@ def gen_input(rng, u, defs):
         if k == "reader":
             return {"kind": "value", "lines": [rng.choice([f"[#rd{d} {u}]", f"(do #rd{d}\n  [{u} #rd{d}])"])][0].split("\n")}
         if k == "var":
+            if rng.random() < 0.35:
+                # a function that declares the global of an EARLIER input nonlocal: valid in a script (one compilation
+                # unit), so valid at the REPL, on one line or split (each incomplete line abandons a compilation)
+                lines = rng.choice([[f"(defn nl{u} [] (nonlocal a) [a {u}]) (nl{u})"],
+                                    [f"(defn nl{u} []", "  (nonlocal a)", f"  [a {u}]) (nl{u})"],
+                                    [f"(defn nl{u} [] (nonlocal a", f"  ) [a {u}]) (nl{u})"]])
+                return {"kind": "value", "lines": lines, "expect": [77000, u]}
             return {"kind": "value", "lines": [rng.choice([f"[a {u}]", f"(do (setv b{u} a) [b{u} a {u}])", f"(+ a {u})"])]}
         return {"kind": "fail", "sub": "macro_in_scope",
                 "lines": rng.choice([[f"(defn g{u} [] (let [a 1] (bad{d})))"], [f"(defn g{u} []", "  (let [a 1]", f"    (bad{d})))"],
@@ -129,6 +136,8 @@ def gen_input(rng, u, defs):
         ("runtime", [f"(setv ok{u} 1) (/ {u} 0)"]),
         ("scope", [f"(nonlocal zz{u})"]), ("scope", [f"(let [q{u} 1] (nonlocal zq{u}) q{u})"]), ("scope", ["(do", f"  (nonlocal zd{u}))"]),
         ("reader", [f"#rd-undefined{u}"]),
+        # reader errors raised after look-ahead (the reader object is reused by the next input)
+        ("reader", [f"(print :a{u}.b)"]), ("reader", [f"[1 a{u}..b]"]), ("reader", [f'f"x{u}}}"']), ("reader", [f"[{u} 1.2.3e]", ])[:2],
     ]
     sub, lines = rng.choice(subs)
     return {"kind": "fail", "sub": sub, "lines": lines}
@@ -410,7 +419,11 @@ class Lockstep:
             self.probes["inputs"] += 1
             if len(inp["lines"]) > 1:
                 self.probes["multiline_inputs"] += 1
-            if inp["kind"] != "interrupt":
+            if "expect" in inp:
+                # value known by construction (the script evaluator compiles every input on its own, the REPL and a
+                # script compile them as one unit)
+                self.cur_script = (("ok", inp["expect"]), "")
+            elif inp["kind"] != "interrupt":
                 self.cur_script = self.script_eval("\n".join(inp["lines"]), repl)
         lines = inp["lines"]
         if self.eof_mid and self.i == len(self.inputs) - 1 and len(lines) > 1 and self.j == len(lines) - 1:
